@@ -1,7 +1,9 @@
 -- Root of the library: every property file (statements + proofs) is built by `lake build`.
 import Casket.Props.C01
+import Casket.Props.C04
 import Casket.Props.C05
 import Casket.Props.C06
 import Casket.Props.C12
+import Casket.Props.C14
 import Casket.Props.C17
 import Casket.Props.C18
